@@ -25,48 +25,58 @@ JOBS = [("zkp2", "zkp2", 2, 6), ("zkp", "zkp", 1, 3), ("shards", "shards", 1, 3)
         ("sigma", "sigma", 1, 1)]
 
 
+def base(typ):
+    """Type name without its instantiation: ecdsa.Signature[k256] -> ecdsa.Signature, modular.Arithmetic(opf) -> modular.Arithmetic."""
+    return re.sub(r"(\[.*\]|\(.*\))$", "", typ or "")
+
+
 def key_of(row):
-    """Stable identification of a rejected line: what went wrong with which type (not where in the run)."""
+    """Stable identification of a rejected line by ROOT CAUSE, not by mutation instance:
+       panic:<decoding entry point that panicked>          (innermost UnmarshalCBOR / Validate frame of the library)
+       novalidate:<type>        the decoder accepted an object that breaks a rule of the type's constructor
+                                (includes panics of Equal / accessors / MarshalCBOR on such an object)
+       no-normal-form:<type>    encoding not deterministic, or decode+encode is not the identity / not a fixed point
+       malformed-accepted:<class>:<type>, tag-not-required:<type>, truncation-accepted:<type>, honest-encoding-rejected:<type>,
+       not-equal:<type>, craft:<type>:<rule> (a crafted rule violation was rejected with a panic-free error: never a key),
+       model:<schema>:<class>:<bytes>, coverage:<type>."""
     a = row.get("a")
-    typ = row.get("typ", "")
+    typ = base(row.get("typ", ""))
+    site = row.get("site") or ""
+    panicked = bool(row.get("panic")) or bool(row.get("panics"))
     if a == "model":
         return "model:%s:%s:%s" % (row.get("sch"), row.get("cls"), row.get("hex"))
+    if panicked:
+        if site and site != "?" and not site.startswith("after-accept"):
+            return "panic:%s" % site
+        return "novalidate:%s" % typ
     if a == "rt":
-        if row.get("panic"):
-            return "panic:%s" % typ
         if not row.get("det") or not row.get("reenc"):
-            return "no-normal-form:%s" % typ           # encoding not deterministic / decode+encode not the identity
+            return "no-normal-form:%s" % typ
         if not row.get("dec"):
             return "honest-encoding-rejected:%s" % typ
         if row.get("eq") == "f":
             return "not-equal:%s" % typ
-        return "invalid-accepted:%s" % typ
+        return "novalidate:%s" % typ
     if a == "mut":
-        if row.get("panic"):
-            return "panic:%s" % typ
         if row.get("res") == "acc" and row.get("cls") in MAL:
             return "malformed-accepted:%s:%s" % (row.get("cls"), typ)
         if row.get("res") == "acc" and row.get("cls") in ("tagdrop", "tagswap") and row.get("iface") and row.get("path") == "":
             return "tag-not-required:%s" % typ
         if row.get("res") == "acc" and row.get("valid") == "f":
-            return "invalid-accepted:%s" % typ
+            return "novalidate:%s" % typ
         return "no-normal-form:%s" % typ
     if a in ("flip", "trunc"):
-        if row.get("panics"):
-            return "panic:%s" % typ
         if a == "trunc" and row.get("acc"):
             return "truncation-accepted:%s" % typ
         if row.get("inv"):
-            return "invalid-accepted:%s" % typ
+            return "novalidate:%s" % typ
         return "no-normal-form:%s" % typ
     if a == "craft":
-        if row.get("panic"):
-            return "panic:%s" % typ
-        if row.get("res") == "acc" and row.get("must") != "rej":
-            return ("invalid-accepted:%s" if row.get("valid") == "f" else "no-normal-form:%s") % typ
-        if row.get("must") == "acc":
-            return "honest-encoding-rejected:%s" % typ
-        return "craft:%s:%s" % (typ, row.get("rule"))
+        if row.get("res") == "acc" and row.get("must") == "rej":
+            return "novalidate:%s" % typ
+        if row.get("res") == "acc":
+            return ("novalidate:%s" if row.get("valid") == "f" else "no-normal-form:%s") % typ
+        return "honest-encoding-rejected:%s" % typ
     if a == "sum":
         return "coverage:%s" % typ
     return "%s:%s" % (a, typ)
